@@ -102,6 +102,12 @@ def operands(fam, rng):
     return Wrench(np.array(v()).reshape((6, 1)), None, F1), Wrench(np.array(v()).reshape((6, 1)), None, F2)
 
 
+def _arr1(t):
+    arr = np.empty(1, dtype=object)
+    arr[0] = t
+    return arr
+
+
 def catalogue():
     from basic_robotics.general import tm, fsr
     A6 = np.array([0.3, -0.2, 0.5, 0.1, 0.2, -0.3])
@@ -125,6 +131,7 @@ def catalogue():
         "angleBetween": lambda a, b: fsr.angleBetween(a, b, a @ b),
         "add_zero": lambda a, b: a + 0, "sub_zero": lambda a, b: a - 0, "mul_one": lambda a, b: a * 1, "rmul_one": lambda a, b: 1 * a,
         "div_one": lambda a, b: a / 1, "add_zero_array": lambda a, b: a + np.zeros(6),
+        "tmctor_arr1": lambda a, b: tm(_arr1(a)),
     }
     S = {
         "add": lambda a, b: a + b, "sub": lambda a, b: a - b, "mul_scalar": lambda a, b: a * 2.5, "rmul_scalar": lambda a, b: 2.5 * a,
